@@ -6,7 +6,7 @@
 From Coq Require Import ZArith List Bool Lia.
 From PM Require Import Lib.Py Spec.LegalKey Model.Lits Spec.Proto Spec.Server Model.World Model.Readers Model.Serde Model.Client
                        Proofs.Hoare Proofs.ReaderFacts Proofs.DecimalFacts Proofs.C02Proof Proofs.C04Proof Proofs.C07Proof
-                       Proofs.Quiet Proofs.QuietFetch Proofs.E2E Proofs.Utf8Facts.
+                       Proofs.Quiet Proofs.QuietFetch Proofs.E2E Proofs.Utf8Facts Proofs.C15Proof.
 Import ListNotations.
 Open Scope Z_scope.
 
@@ -295,21 +295,32 @@ Proof.
     [rewrite lookup_put_other by exact N|rewrite lookup_remove_other by exact N]; reflexivity.
 Qed.
 
-(* the native types (bytes, str, int) never reach the pickle oracle: what the configured serializer produces, the
-   deserializer turns back into the value; without a serializer the caller gets the stored bytes *)
+(* what the configured serializer produces, the deserializer turns back into the value; without a serializer the caller gets
+   the stored bytes.  The native types (bytes, str, int) never reach the pickle oracle; any other value comes back provided
+   pickle round-trips THAT value, and with CompressedSerde provided the codec round-trips (the oracle hypotheses of C15) *)
 Definition native (v : dyn) : Prop := match v with DBytes _ | DStr _ | DInt _ => True | _ => False end.
+Definition roundtrips (value : dyn) : Prop :=
+  (c_serde c =? 0) = true \/
+  ((pickled value = true -> o_loads (c_orc c) (o_dumps (c_orc c) (o_pickle_version (c_orc c)) value) = Ok value) /\
+   ((c_serde c =? 2) = true -> forall b, o_decompress (c_orc c) (o_compress (c_orc c) b) = Ok b)).
+Lemma native_roundtrips value : native value -> (c_serde c =? 2) = false -> roundtrips value.
+Proof. intros Hn H2. right. split; [destruct value; try destruct Hn; discriminate|rewrite H2; discriminate]. Qed.
 Definition comes_back (value : dyn) (db : list Z) : dyn := if c_serde c =? 0 then DBytes db else value.
-Lemma native_roundtrip value data dfl db : (c_serde c =? 0) = true \/ native value ->
+Lemma serde_roundtrip value data dfl db : roundtrips value ->
   serde_serialize c value = Ok (data, dfl) -> data_bytes c data = Ok db ->
   serde_deserialize c (DBytes db) dfl = Ok (comes_back value db).
 Proof.
-  unfold serde_serialize, serde_deserialize, comes_back. intros Hn Hs Hd. destruct (c_serde c =? 0) eqn:E0; [reflexivity|].
-  destruct Hn as [Hn|Hn]; [discriminate|]. destruct value; try destruct Hn; cbn [serialize] in Hs.
-  - inversion Hs; subst. cbn [data_bytes] in Hd. inversion Hd; subst.
-    change (py_int (DBytes (str_of_Z z)) = Ok (DInt z)). unfold py_int. rewrite int_of_str_of_Z. reflexivity.
-  - destruct (utf8_encode s) as [b|] eqn:Eu; [|discriminate]. inversion Hs; subst. cbn [data_bytes] in Hd. inversion Hd; subst.
-    change (py_decode_utf8 (DBytes db) = Ok (DStr s)). unfold py_decode_utf8. rewrite (utf8_roundtrip s db Eu). reflexivity.
-  - inversion Hs; subst. cbn [data_bytes] in Hd. inversion Hd; subst. reflexivity.
+  unfold serde_serialize, serde_deserialize, comes_back, roundtrips. cbv zeta. intros Hn Hs Hd. destruct (c_serde c =? 0) eqn:E0; [reflexivity|].
+  destruct Hn as [Hn|[Hp Hc]]; [discriminate|].
+  assert (He : encodable value).
+  { destruct value; cbn [encodable]; try exact I. intros Hnone. destruct (c_serde c =? 2); [unfold c_serialize in Hs|]; cbn [serialize] in Hs;
+      rewrite Hnone in Hs; discriminate. }
+  destruct (c_serde c =? 2) eqn:E2.
+  - destruct (compressed_serde_roundtrip_at _ _ _ _ (o_min_compress_len (c_orc c)) (o_pickle_version (c_orc c)) value He Hp (Hc eq_refl))
+      as (b0 & f0 & b & f & _ & Hcs & _ & Hcd & _).
+    rewrite Hcs in Hs. inversion Hs; subst data dfl. cbn [data_bytes] in Hd. inversion Hd; subst db. exact Hcd.
+  - destruct (pickle_serde_roundtrip_at _ _ (o_pickle_version (c_orc c)) value He Hp) as (b & f & Hps & _ & Hpd).
+    rewrite Hps in Hs. inversion Hs; subst data dfl. cbn [data_bytes] in Hd. inversion Hd; subst db. exact Hpd.
 Qed.
 
 Lemma store_intent_one_inv v key value expire nr flags cb v' k f e db cb' nr' :
@@ -331,7 +342,7 @@ Hypothesis catches_store : forall e, exn_isa e Exception_ = true -> exn_isa e (h
 Theorem set_then_get_e2e sid s key value expire n bytes default x :
   let nr := eff_noreply c n in
   store_bytes c (verb_name 0) [(key, value)] expire nr DNone None = Ok bytes -> in_i64 expire ->
-  (c_serde c =? 0) = true \/ native value -> swf s ->
+  roundtrips value -> swf s ->
   (forall e, int_value expire = Some e -> abs_exp (s_now s) e = Some x /\ (x = 0 \/ s_now s < x)) ->
   exists db,
   hoare (St sid s []) (mbind (run_op sstate serve c (OpStore 0 key value expire n DNone)) (fun _ => run_op sstate serve c (OpGet key default)))
@@ -351,9 +362,9 @@ Proof.
   eapply h_conseq; [apply (get_e2e sid s' key default k Hk Hs')| | |].
   - intros w [_ Hw]. exact Hw.
   - intros v w [Hv Hw]. rewrite Hl in Hv. unfold deser in Hv. cbn [i_data i_flags] in Hv.
-    rewrite (native_roundtrip value data dfl db Hn Hser Hdb) in Hv. inversion Hv. split; [reflexivity|exists s'; exact Hw].
+    rewrite (serde_roundtrip value data dfl db Hn Hser Hdb) in Hv. inversion Hv. split; [reflexivity|exists s'; exact Hw].
   - intros e0 w [(it & Hit & Hd) _]. rewrite Hl in Hit. inversion Hit; subst it. unfold deser in Hd. cbn [i_data i_flags] in Hd.
-    rewrite (native_roundtrip value data dfl db Hn Hser Hdb) in Hd. discriminate.
+    rewrite (serde_roundtrip value data dfl db Hn Hser Hdb) in Hd. discriminate.
 Qed.
 
 (* ... and a set of one key leaves what a get of any other key returns unchanged *)
